@@ -88,3 +88,36 @@ Proof.
   { clear -H. induction H as [|h l Hh Hl IH]; cbn [map fold_right]; lia. }
   destruct (existsb is_failed l); lia.
 Qed.
+
+(* ---- -k ---- *)
+(* with -k pdsh's status is 0 exactly when every host was reached and every command returned 0 (with or without -S) *)
+Theorem k_zero_iff_all_succeeded optS l : Forall (fun h => 0 <= hrc h <= 255) l ->
+  (exit_k optS true l = 0 <-> Forall (fun h => hrc h = 0 /\ is_failed h = false) l).
+Proof.
+  intros Hr. unfold exit_k. cbn [andb]. destruct (existsb kfail l) eqn:E.
+  - split; [discriminate|]. intros Hall. apply existsb_exists in E as (h & Hh & Hk).
+    eapply Forall_forall in Hall; eauto. destruct Hall as [H0 Hf]. unfold kfail in Hk. rewrite Hf, H0 in Hk. discriminate.
+  - assert (Hall : Forall (fun h => hrc h = 0 /\ is_failed h = false) l).
+    { apply Forall_forall. intros h Hh. destruct (kfail h) eqn:Ek.
+      - assert (existsb kfail l = true) by (apply existsb_exists; eauto). congruence.
+      - unfold kfail in Ek. apply orb_false_elim in Ek as [Ef El]. eapply Forall_forall in Hr; eauto. split; [lia|exact Ef]. }
+    split; [intros _; exact Hall|]. intros _. destruct optS; [|reflexivity].
+    rewrite exit_status_exact by exact Hr. rewrite <- aggregate_is_max.
+    apply zero_iff_all_succeeded; [|exact Hall]. eapply Forall_impl; [|exact Hr]. cbn. lia.
+Qed.
+
+(* ... and any failure makes it non-zero: 1, whatever the codes *)
+Theorem k_failure_is_one optS l h : In h l -> kfail h = true -> exit_k optS true l = 1.
+Proof. intros Hh Hk. unfold exit_k. cbn [andb]. assert (E : existsb kfail l = true) by (apply existsb_exists; eauto). rewrite E. reflexivity. Qed.
+
+(* the in-band status exists only if it was asked for; -k alone asks for it *)
+Theorem status_seen_iff_requested optS optk code : seen_inband (getstat optS optk) code = if optS || optk then code else 0.
+Proof. reflexivity. Qed.
+
+(* a command that fails in-band (exit code > 0, reported only through the status line) under -k alone: pdsh ends with 1 *)
+Theorem k_alone_sees_inband_failure code rest : 0 < code -> run_exit false true ((false, (code, 0)) :: rest) = 1.
+Proof.
+  intros Hc. unfold run_exit. cbn [map fst snd getstat orb].
+  eapply k_failure_is_one; [left; reflexivity|].
+  unfold kfail, host_result, seen_inband, host_rc, is_failed. cbn [hs hrc]. destruct (code =? 0) eqn:E; cbn [andb orb]; lia.
+Qed.
